@@ -929,6 +929,42 @@ func inProgressRestored(ctx *Ctx, r *Report, files []string, floor int) {
 					sets = append(sets, s)
 				}
 			}
+			// a set declared outside a function literal, filled inside it, whose hit makes the literal return a constant answer
+			// outlives each question put to the literal: it needs the removal even if today's code has none
+			if body != fd.Body {
+				inScope(func(m ast.Node) bool {
+					is, ok := m.(*ast.IfStmt)
+					if !ok || is.Init == nil || len(is.Body.List) != 1 {
+						return true
+					}
+					as, ok := is.Init.(*ast.AssignStmt)
+					if !ok || len(as.Rhs) != 1 {
+						return true
+					}
+					ix, ok := ast.Unparen(as.Rhs[0]).(*ast.IndexExpr)
+					if !ok {
+						return true
+					}
+					rs, ok := is.Body.List[0].(*ast.ReturnStmt)
+					if !ok || len(rs.Results) != 1 {
+						return true
+					}
+					if tv, ok := info.Types[rs.Results[0]]; !ok || tv.Value == nil {
+						return true
+					}
+					name := exprString(ix.X)
+					id, ok := ast.Unparen(ix.X).(*ast.Ident)
+					if !ok || len(ins[name]) == 0 || len(dels[name]) > 0 {
+						return true
+					}
+					if o := objOf(info, id); o != nil && (o.Pos() < body.Pos() || o.Pos() > body.End()) {
+						n++
+						r.Bad("typestate/in-progress-restored", fmt.Sprintf("%s restores %s", ctx.FuncName(obj), name), ins[name][0],
+							fmt.Sprintf("%s: the set %s is declared outside the function literal that fills it and a hit answers `%s` for good, but entries are never removed: the first question about a reference leaves its mark, the next one about the same reference — asked for another field — is answered as if it were a cycle (the check for that field is never generated)", ctx.FuncName(obj), name, exprString(rs.Results[0])))
+					}
+					return true
+				})
+			}
 			sort.Strings(sets)
 			for _, s := range sets {
 				n++
